@@ -285,7 +285,7 @@ def run_scenario(sc):
             return {"id": sc["id"], "events": s.events, "target_log": [], "ledger": [], "mem_after": {}}
         kept = []
         for c in sc["calls"]:
-            s.ev({"k": "call", "api": c["api"], "intent": c.get("intent", {}), "faulted": 1 if s.fault_fired else 0})
+            s.ev({"k": "call", "api": c["api"], "intent": c.get("intent", {}), "faulted": 1 if s.fault_fired else 0, "ops": s.sends + s.recvs})
             rec = {"k": "ret", "api": c["api"]}
             try:
                 r = do_call(drv, c)
